@@ -181,6 +181,16 @@ func zzC05RefDiv(kind int, a, b *big.Int) (q, r *big.Int) {
 
 var zzC05Divs = []string{"floor", "ceiling", "truncate", "round"}
 
+// round is checked on operands below 2^zzC05RoundBits (non-linear queries)
+var zzC05RoundBits = 10
+
+// VerifC05RoundSmall: the round obligation on operands below 2^6 (used to probe
+// the known findings about round cheaply).
+func VerifC05RoundSmall(rep0 int, rep1 int) {
+	zzC05RoundBits = 6
+	VerifC05Division(3, rep0, rep1)
+}
+
 // VerifC05Division: (floor|ceiling|truncate|round x y) on integers returns the
 // quotient and remainder the definition gives, x = q*y + r.
 func VerifC05Division(kind int, rep0 int, rep1 int) {
@@ -201,7 +211,7 @@ func VerifC05Division(kind int, rep0 int, rep1 int) {
 	vrt.Carve("C05-round-bignum-negative", kind == 3 && (rep0 == 1 || rep1 == 1) && (vx.Sign() < 0 || vy.Sign() < 0))
 	if kind == 3 {
 		// non-linear: keep the fixnum round obligation within solver reach
-		lim := big.NewInt(1 << 20)
+		lim := big.NewInt(1 << uint(zzC05RoundBits))
 		vrt.Assume(new(big.Int).Abs(vx).Cmp(lim) < 0 && new(big.Int).Abs(vy).Cmp(lim) < 0)
 	}
 	out := zzC05Call(zzC05Divs[kind], x, y)
